@@ -610,7 +610,15 @@ impl<'a> Peripheral<'a> {
                             };
 
                             if data_ok {
-                                if t.pdu.len() == self.pi_i.len() {
+                                if t.h.dsap != crate::consts::SAP_MASTER_DATA_EXCHANGE
+                                    || t.h.ssap != crate::consts::SAP_SLAVE_DATA_EXCHANGE
+                                {
+                                    log::warn!(
+                                        "Got response from #{} with unexpected SAPs!",
+                                        self.address
+                                    );
+                                    None
+                                } else if t.pdu.len() == self.pi_i.len() {
                                     self.pi_i.copy_from_slice(t.pdu);
                                     self.state = PeripheralState::DataExchange;
                                     Some(PeripheralEvent::DataExchanged)
